@@ -745,8 +745,4 @@ example : ∃ k tail, Rs.drain (GenSrcFastq.srcNext 2 (cyclic [1, 3]) 100) 100 (
   fastq_prefix_safe_source 2 _ (by decide) (cyclic_admissible _) exFqTab (by decide) (by decide) 22 [] 100 100
     (by decide) (by decide) (by decide)
 
-/-- the translated FASTA writer refuses `linewrap = Some(0)` (panic in `chunks(0)`): outside the domain of the theorems -/
-example : Gen.SrcFasta.write GenSrcFasta.writeAllOp [] (some 0) [105] none [65] = RbV.Rs.Res.panic := by
-  simp [Gen.SrcFasta.write, Gen.SrcFasta.writeRecordHeader, RbV.Rs.expect, RbV.Rs.chunks]
-
 end RbV.Thm.C11
